@@ -66,3 +66,32 @@ Definition ckpc (tol : Qc) (vs : list Pt) (expected : option (list Rect4)) : boo
 (* is_point_inside_polygon on a list of points *)
 Definition cki (vs : list Pt) (pts : list (Pt * bool)) : bool :=
   forallb (fun pb => Bool.eqb (point_inside (fst pb) vs) (snd pb)) pts.
+
+(* ---------- matrices given as text (code points) ---------- *)
+From Coq Require Import NArith.
+From FrameModel Require Import Strop.Text.
+
+Definition ckt (text : list N) (expected : option (list (list SRect))) (isb : bool) : bool :=
+  match strop_text text, expected with
+  | None, None => true
+  | Some l, Some e => leqb (leqb srect_eqb) (map rectangles l) e
+                      && Bool.eqb (match l with [] => false | _ => true end) isb
+  | _, _ => false
+  end.
+
+(* ---------- vertex lists with their input form ---------- *)
+From FrameModel Require Import Strop.PolygonForms.
+Definition vp := VPoint.
+Definition vr := VRow.
+Definition ckf (vs : list Vertex) (expected : option (list Rect4)) : bool :=
+  match decomposition_of_forms vs, expected with
+  | None, None => true
+  | Some alls, Some e => existsb (fun l => leqb rect4_eqb l e) alls
+  | _, _ => false
+  end.
+Definition ckfc (tol : Qc) (vs : list Vertex) (expected : option (list Rect4)) : bool :=
+  match decomposition_of_forms vs, expected with
+  | None, None => true
+  | Some alls, Some e => existsb (fun l => leqb (rect4_close tol) l e) alls
+  | _, _ => false
+  end.
